@@ -18,7 +18,7 @@ K_THOROUGH_ONLY = [
 ]
 
 PROPS = {
-    "C01": dict(claim="Bounded symbolic checking of the predicate-graph scheduler: the real MIR of check_predicate_inner and every helper below it (parent map, Kahn levels, deferral, caching, node_edges, the byte-level effect scan) is executed by mirsym on symbolic graphs (1..3 nodes, <=2 edges quick / <=3 thorough, every edge_start and edge target any u16, post-read flag per node), both passes over a shared cache, with an uninterpreted node runner; each path is compared with the reference scheduling semantics (every node once, after all parents, inputs = parents' outputs ascending, pass assignment, verdict, failing indices, gas, data outputs; cyclic/malformed rejected unevaluated). Edge slicing (node_edges) is decided separately against its documented rule. Node evaluation (run_program, Vm::exec_ops uninterpreted): initial VM state = parents' stacks and memories concatenated in order, leaf [1] / [2] / other mapping, hand-on of (stack, memory), gas and VM errors passed through, concatenation above the limits rejected. Set level (check_set_predicates, check_predicate uninterpreted): all failing solution indices ascending, saturating gas sum, data outputs and caches attached to the right solution. The layers compose through the interfaces that were made uninterpreted.",
+    "C01": dict(claim="Bounded symbolic checking of the predicate-graph scheduler: the real MIR of check_predicate_inner and every helper below it (parent map, Kahn levels, deferral, caching, node_edges, the byte-level effect scan) is executed by mirsym on symbolic graphs (1..3 nodes, <=2 edges quick / <=3 thorough, every edge_start and edge target any u16, post-read flag per node), both passes over a shared cache, with an uninterpreted node runner; each path is compared with the reference scheduling semantics (every node once, after all parents, inputs = parents' outputs ascending, pass assignment, verdict, failing indices, gas, data outputs; cyclic/malformed rejected unevaluated). Edge slicing (node_edges) is decided separately against its documented rule. The per-node closure of check_predicate (scheduler and run_program uninterpreted): each node is run with the program stored under its own program address, the parents it was given, the call's solution index and leaf = 'empty edge range'. Node evaluation (run_program, Vm::exec_ops uninterpreted): initial VM state = parents' stacks and memories concatenated in order, leaf [1] / [2] / other mapping, hand-on of (stack, memory), gas and VM errors passed through, concatenation above the limits rejected. Set level (check_set_predicates, check_predicate uninterpreted): all failing solution indices ascending, saturating gas sum, data outputs and caches attached to the right solution. The layers compose through the interfaces that were made uninterpreted.",
                 outside=["graphs above the bound", "dangling edge targets: only totality is asserted", "thread schedules (C02)"]),
     "C03": dict(claim="Post-state construction: the two-pass entry point (per-pass check uninterpreted) hands an empty post-state to the first pass and exactly the declared + computed mutations per contract to the second, gas added saturating. Routing: Post* read ops ask the post view, the others the pre view (h_vmio::state_read). Overlay: read_or_fallback + next_key (real MIR) with an uninterpreted pre-state, symbolic keys (<=2 words), <=2 proposed entries incl. deletions, counts 0..2 and any count > 2^40: per position the proposed value if the set proposes one for (contract, key+i) else the pre-state value for exactly that key, untouched contracts pass through, pre-state errors are returned unchanged, key successor with carry exact for keys <=4 words. Deferral: on the same symbolic graphs as C01 every node that depends on a post-state read (itself or an ancestor flagged) is evaluated only in the second pass and every other node exactly once in the first; the byte-level scan that sets the flag (bytes_contains_any) is decided against the parsed program on symbolic byte streams.",
                 outside=["graphs / key lengths above the bound"]),
